@@ -225,6 +225,7 @@ static void *watchdog(void *arg)
 	printf("\n");
 	fflush(stdout);
 	verif_trace_dump();
+	sleep(3);	/* multi-rank runs: let the watchdogs of the other ranks report before mpiexec kills them */
 	_exit(42);
 	return NULL;
 }
